@@ -312,6 +312,38 @@ func runC15(c *Ctx) {
 			}
 			c.count("v1_user_token_from_generic_claims")
 		}
+		// decodable tokens whose free-text kind holds characters a formatter reads (%s, %d, %%, %!): decorated by both
+		// libraries, the token parses back unchanged
+		for _, ty := range []string{"discount-50%-off", "rate%step", "100%d", "%s", "%%", "%v%v", "a%!b(MISSING)", "%[1]s", "%", "line\nbreak", "-----", "dash-----kind"} {
+			g1 := v1.NewGenericClaims(kr.by["account"].pub)
+			g1.Type = v1.ClaimType(ty)
+			t1, err := g1.Encode(kr.by["account"].kp)
+			if err != nil {
+				continue
+			}
+			g2 := jwt.NewGenericClaims(kr.by["account"].pub)
+			g2.Data["type"] = ty
+			t2, err2 := g2.Encode(kr.by["account"].kp)
+			for lib, f := range map[string]func(string) ([]byte, error){"bundled v1": v1.DecorateJWT, "v2": jwt.DecorateJWT} {
+				for which, tok := range map[string]string{"version-1 token": t1, "version-2 token": t2} {
+					if which == "version-2 token" && (err2 != nil || lib == "bundled v1") {
+						continue
+					}
+					out, derr := f(tok)
+					c.sum.Evaluations++
+					c.sum.ImplChecks++
+					inp := map[string]interface{}{"kind_text": ty, "library": lib, "token_is_a": which, "token": tok}
+					if derr != nil {
+						continue // (whether a library decodes such a token at all is not this check's business)
+					}
+					if got, perr := jwt.ParseDecoratedJWT(out); perr != nil || got != tok {
+						inp["decorated"], inp["parsed"] = string(out), got
+						c.violation("C15: a decorated token whose kind text holds formatter characters does not parse back unchanged", inp)
+					}
+					c.count("decorated_kind_text_with_formatter_characters")
+				}
+			}
+		}
 		for kind, tok := range validV1Tokens(kr) {
 			c.sum.ImplChecks++
 			_, err := v1.FormatUserConfig(tok, useed)
